@@ -9,6 +9,8 @@ def reaction_tuple(r):
         pd = {'k': r['k']}
         if 'ma_species' in r:
             pd['species'] = '*'.join(r['ma_species'])
+        if 'ma_species_text' in r:
+            pd['species'] = r['ma_species_text']       # the species string exactly as written (the reference reads the reactant list)
     elif kind == 'general':
         pd = {'rate': EX.render(EX.totuple(r['rate']))}
     else:
